@@ -7,7 +7,7 @@ from vf.ref import fixwire
 META = {
     "level": "exploration",
     "rule": ("a real logged-on connection (both roles) is fed one frame at a time by a scripted adversarial peer; alphabet relative to the "
-             "connection's own expected number E: type in {app, Heartbeat, TestRequest, ResendRequest(once, benign), GapFill, Reset} x "
+             "connection's own expected number E: type in {app, Heartbeat, TestRequest, ResendRequest, GapFill, Reset} x "
              "MsgSeqNum in {E-1,E,E+1,E+4} x PossDupFlag x NewSeqNo in {s+1,s+3,E-1}; start states ACTIVE, RESENDREQ_AWAITING via a real gap, ACTIVE with an application handler that raises, "
              "and after a too-high Logon; exhaustive over all histories of length 3 (quick) / 4 (thorough) of a 24-symbol alphabet plus random "
              "histories of length 6-14 over 40 symbols; after every frame the monitor checks R1 delivery only at E and once, R2 E moves by +1 / "
@@ -15,7 +15,7 @@ META = {
              "per gap, R4 delivered numbers strictly increase; a history is judged up to its first violation; distinct = the symbol "
              "sequence + start; non-trivial = history contains a gap or a SequenceReset"),
     "assumptions": ["frames after which the connection legitimately drops are C11's subject", "Reset-mode SequenceReset: rule R3 unspecified",
-                    "inbound ResendRequests are limited to one benign request per history (C06 judges servicing)"],
+                    "inbound ResendRequests (any number since repo fix 7af4ef7) are serviced as a side activity; C06 judges the replies"],
 }
 REQUIRED_ORACLES = ["R1", "R2", "R3", "R4"]
 NSHARDS = 16
@@ -108,9 +108,7 @@ async def run_history(acc, clock, role, start, syms, cid):
                 trace.append(sym_str(sym) + "(skipped)")
                 continue
             if t == "rr":
-                if rr_used:
-                    trace.append(sym_str(sym) + "(skipped)")
-                    continue
+                # (until repo fix 7af4ef7 a second inbound ResendRequest corrupted the outbound journal and had to be kept out of C04)
                 rr_used = True
             cnt += 1
             new = None
